@@ -5,6 +5,7 @@ from __future__ import annotations
 import ast
 
 from ..cfg import cfg_of
+from ..expand import expanded
 from ..index import AnalysisError, function_stmts, parent, walk_no_nested
 from ..roles import schema_backend_classes
 from ..util import Expander, callee_last, calls_in, enclosing_stmt, kw, names_in, path_condition, show_condition, txt
@@ -29,8 +30,10 @@ def _validates(ix):
     out = []
     for bc in schema_backend_classes(ix):
         f = bc.method("validate")
-        if f is not None and any("drop_invalid_rows" in txt(n) for n in walk_no_nested(f.node) if isinstance(n, ast.Constant)):
-            out.append(f)
+        if f is not None:
+            f = expanded(ix, f)
+            if any("drop_invalid_rows" in txt(n) for n in walk_no_nested(f.node) if isinstance(n, ast.Constant)):
+                out.append(f)
     return out
 
 
@@ -213,7 +216,7 @@ def r4_wiring(ctx):
             pc = path_condition(cfg, node.id, keep=keep)
             d = dict(zip(pc[0], next(iter(pc[1])))) if len(pc[1]) == 1 else {}
             ok = bool(d) and all(v is True for v in d.values()) and any("collected_errors" in k for k in d) and any("drop_invalid_rows" in k for k in d)
-            assigned = isinstance(s, ast.Assign) and txt(s.targets[0]) == f.positional[1]
+            assigned = (isinstance(s, ast.Assign) and txt(s.targets[0]) == f.positional[1]) or isinstance(s, ast.Return)
             ctx.ob("R4", f, f"{f.short}: drop only when errors were collected and the option is set; result kept", ok and assigned,
                    f"reached under {show_condition(pc)}; result bound to `{f.positional[1]}`: {assigned}", f.loc(s))
         # the other branch raises SchemaErrors
